@@ -31,7 +31,7 @@ LEVEL = "exploration"
 RULE = ("seeded scenarios: master + 1..4 joiners (quick) / up to 12 with level-1 slots exhausted so that joins go through relays "
         "(thorough), in a third of the small runs a master table pre-filled with static leases that leave one free slot per level along a seeded chain (joins down to level 4, full parents), distinct random IDs 1..255, start offsets 0..300 ms, per-node MCU jitter; per joiner renew_address() then a "
         "seeded sequence of lookup_address / lookup_node_id (known, unknown, 0, None), send(to id), check_connection(both modes), "
-        "release_address, re-join; a fifth of the small runs are the serialised families "orphan" (a node's relay releases its address, the node joins again) and "master_down" (the master's MCU stops, lookups behind a still-acknowledging first hop must give -1); 20 % of runs inject packet/ACK loss and enforce only the `safe` clause. Non-trivial: at least "
+        "release_address, re-join; a fifth of the small runs are the serialised families orphan (a node's relay releases its address, the node joins again) and master_down (the master's MCU stops, lookups behind a still-acknowledging first hop must give -1); 20 % of runs inject packet/ACK loss and enforce only the `safe` clause. Non-trivial: at least "
         "two nodes joined or a join went through a relay; distinct = distinct abstract event sequences")
 ASSUMPTIONS = ["loss-free claims: collisions arise only from the schedule the library itself produces (M10)",
                "lookup answers are compared with every table version in force between call and return",
